@@ -25,7 +25,8 @@ import (
 
 type dlDesc struct {
 	N        int   `json:"n"`
-	Schedule []int `json:"schedule"` // picks; the run is completed round-robin afterwards
+	Schedule []int `json:"schedule"`        // picks; the run is completed round-robin afterwards
+	Procs    bool  `json:"procs,omitempty"` // contenders are child processes instead of goroutines
 }
 
 type dlStep struct {
@@ -164,12 +165,16 @@ func dlCase(base string, d dlDesc) (corr.Case, error) {
 
 func runDirLock(c *corr.Ctx) error {
 	c.Meta("run_module", "RunDirLock")
-	c.Meta("rule", "3 contenders (2..4 in random cases) on one directory under the controlled scheduler; schedules: every word of length b over the contenders (b=6 quick, 9 thorough), every schedule of at most 4 runs of lengths 1..4 (5 runs thorough), random block schedules; each completed round-robin. Compared after every grant: whether the grant ran, the yield point reached (pc), who has the directory, whether LOCK exists. non-trivial = some contender was refused (busy) or had to retry, or two contenders had the directory. Cases are de-duplicated by observed trace")
+	c.Meta("rule", "3 contenders (2..4 in random cases) on one directory under the controlled scheduler; schedules: every word of length b over the contenders (b=6 quick, 8 thorough), every schedule of at most 4 runs of lengths 1..4 (thorough: 5 runs of lengths 1..3), random block schedules; each completed round-robin. Compared after every grant: whether the grant ran, the yield point reached (pc), who has the directory, whether LOCK exists. non-trivial = some contender was refused (busy) or had to retry, or two contenders had the directory. Cases are de-duplicated by observed trace. Process mode: the same comparison with 3 real child processes of the harness binary, each parking at the yield points through pipes (witness schedule + random schedules; thorough: all prefixes of length 5)")
 	c.Meta("exhaustive", true)
 	c.Meta("exhaustive_scope", "3 contenders: all schedule prefixes up to the bound and all schedules with at most 3 (thorough 4) context switches with runs of length <= 4")
 	base := c.Out
 	emit := func(d dlDesc, seen map[string]bool) error {
-		cs, err := dlCase(base, d)
+		run := dlCase
+		if d.Procs {
+			run = dlProcCase
+		}
+		cs, err := run(base, d)
 		if err != nil {
 			return err
 		}
@@ -206,7 +211,7 @@ func runDirLock(c *corr.Ctx) error {
 	seen := map[string]bool{}
 	var ferr error
 	// 1. all prefixes
-	bound := c.Scale(6, 9)
+	bound := c.Scale(6, 8)
 	if c.Tier == "search" {
 		bound = 8
 	}
@@ -219,9 +224,9 @@ func runDirLock(c *corr.Ctx) error {
 		return ferr
 	}
 	// 2. context-switch bounded
-	blocks := 4
+	blocks, maxRun := 4, 4
 	if c.Tier == "thorough" {
-		blocks = 5
+		blocks, maxRun = 5, 3
 	}
 	var rec func(prefix []int, last, left int)
 	rec = func(prefix []int, last, left int) {
@@ -237,7 +242,7 @@ func runDirLock(c *corr.Ctx) error {
 			if t == last {
 				continue
 			}
-			for l := 1; l <= 4; l++ {
+			for l := 1; l <= maxRun; l++ {
 				p := append([]int(nil), prefix...)
 				for i := 0; i < l; i++ {
 					p = append(p, t)
@@ -249,6 +254,28 @@ func runDirLock(c *corr.Ctx) error {
 	rec(nil, -1, blocks)
 	if ferr != nil {
 		return ferr
+	}
+	// 2b. real child processes (3 processes synchronised through pipes)
+	procSeen := map[string]bool{}
+	if err := emit(dlDesc{N: 3, Schedule: []int{0, 0, 0, 0, 1, 1, 0, 0, 2, 2}, Procs: true}, procSeen); err != nil {
+		return err
+	}
+	c.Count("process_schedules")
+	if c.Tier == "thorough" {
+		sched.Prefixes(3, 5, func(w []int) bool {
+			c.Count("process_schedules")
+			ferr = emit(dlDesc{N: 3, Schedule: w, Procs: true}, procSeen)
+			return ferr == nil
+		})
+		if ferr != nil {
+			return ferr
+		}
+	}
+	for i := 0; i < c.Scale(20, 200); i++ {
+		c.Count("process_schedules")
+		if err := emit(dlDesc{N: 3, Schedule: sched.RandomBlocks(c.Rng, 3, 8+c.Rng.Intn(16), 4), Procs: true}, procSeen); err != nil {
+			return err
+		}
 	}
 	// 3. random
 	for i := 0; i < c.Scale(300, 6000); i++ {
